@@ -16,6 +16,11 @@ def run(ctx):
     cmp_rules(ctx)
     hash_memo(ctx)
     immut.im11(ctx)     # the memoised hash of one URL can never end up in another URL's cache
+    # a constructor that pre-fills a comparison key (`_cmp_val`, `_val`, `hash`) stores what the lazy definition computes
+    from ..rules.pickle import sh4
+    from ..shape import Shapes
+    sh4(ctx, Shapes(ctx.model), only_keys=("_cmp_val", "_val", "hash"))
+    immut.im13(ctx)     # nobody writes into the cache of a URL it did not create (shared, memoised objects)
     ctx.extra["exhaustive"] = True
 
 
